@@ -625,6 +625,9 @@ fn format_literal(
             output.push('-');
             write_infinity_untyped(output, context);
         }
+        ast::Literal::FloatUntyped(v) if *v == 0.0 && v.is_sign_negative() => {
+            output.push_str("-0.0")
+        }
         ast::Literal::FloatUntyped(v) if *v == (*v as i64 as f64) => {
             write!(output, "{}.0", *v as i64).unwrap()
         }
@@ -640,6 +643,9 @@ fn format_literal(
             write_infinity_f16(output, context);
         }
         ast::Literal::Float16(v) if *v == f32::NEG_INFINITY => write!(output, "-INFINITY").unwrap(),
+        ast::Literal::Float16(v) if *v == 0.0 && v.is_sign_negative() => {
+            output.push_str("-0.0h")
+        }
         ast::Literal::Float16(v) if *v == (*v as i64 as f32) => {
             write!(output, "{}.0h", *v as i64).unwrap()
         }
@@ -657,6 +663,9 @@ fn format_literal(
         ast::Literal::Float32(v) if *v == f32::MAX && context.target == Target::Msl => {
             output.write_str("FLT_MAX").unwrap()
         }
+        ast::Literal::Float32(v) if *v == 0.0 && v.is_sign_negative() => {
+            output.push_str("-0.0f")
+        }
         ast::Literal::Float32(v) if *v == (*v as i64 as f32) => {
             write!(output, "{}.0f", *v as i64).unwrap()
         }
@@ -670,6 +679,9 @@ fn format_literal(
         ast::Literal::Float64(v) if *v == f64::NEG_INFINITY => {
             output.push('-');
             write_infinity_f64(output, context);
+        }
+        ast::Literal::Float64(v) if *v == 0.0 && v.is_sign_negative() => {
+            output.push_str("-0.0L")
         }
         ast::Literal::Float64(v) if *v == (*v as i64 as f64) => {
             write!(output, "{}.0L", *v as i64).unwrap()
